@@ -90,8 +90,8 @@ def adversarial_sender(rng, tier, rate_limit=True, gens=False, stops=False):
                 ops.append({'op': 'tick', 'dt': 200000001})
     # watchdog phase: pass every due time; every request must get an outcome
     for _ in range(6 + total_frames):
-        ops.append({'op': 'tick', 'dt': max(tfc, 200000000) + 1000})
-        ops.append({'op': 'process', 'i': 0})
+        ops.append({'op': 'tick', 'dt': max(tfc, 200000000) + 1000, 'keep': True})
+        ops.append({'op': 'process', 'i': 0, 'keep': True})
     return {'ops': ops}
 
 
